@@ -394,6 +394,8 @@ class SymExec:
                 return self.ev(n.orelse, env, events)
             a, b = self.ev(n.body, env, events), self.ev(n.orelse, env, events)
             return a if a == b else (f"‹{a}|{b}›" if isinstance(a, str) and isinstance(b, str) else OPAQUE)
+        if isinstance(n, ast.UnaryOp) and isinstance(n.op, ast.USub) and isinstance(n.operand, ast.Constant):
+            return -n.operand.value
         if isinstance(n, (ast.Compare, ast.BoolOp, ast.UnaryOp)):
             t = self.truth(n, env, events)
             return OPAQUE if t is None else t
